@@ -1,6 +1,6 @@
 SPECIFICATION GSpec
 CONSTANTS
-  Families = {"A", "B", "C1", "C2", "E", "K", "R"}
+  Families = {"A", "B", "C1", "C2", "E", "K", "R", "G"}
   Depth = 6
 VIEW View
 CONSTRAINT Bound
